@@ -2,7 +2,7 @@
 //! Strings and byte strings travel as `x<hex of the bytes>` (`x` alone = empty).
 use dashu_int::{IBig, Sign, UBig};
 use hlib::*;
-use std::fmt::{self, Binary, Display, Formatter, LowerHex, Octal, UpperHex};
+use std::fmt::{self, Binary, Debug, Display, Formatter, LowerHex, Octal, UpperHex};
 use std::str::FromStr;
 
 fn unhex(s: &str) -> Vec<u8> {
@@ -61,6 +61,24 @@ impl Display for PadRef<'_> {
     }
 }
 
+/// `{:?}` with run-time flags: Debug of UBig/IBig honours `+` and `#` only; width, fill, alignment and `0` must be ignored
+fn fmt_dbg<T: Debug>(v: &T, spec: &str, w: usize) -> String {
+    match spec {
+        "." => format!("{:?}", v),
+        ".#" => format!("{:#?}", v),
+        ".+" => format!("{:+?}", v),
+        ".+#" => format!("{:+#?}", v),
+        ".w" => format!("{:w$?}", v, w = w),
+        ".0w" => format!("{:0w$?}", v, w = w),
+        ".#0w" => format!("{:#0w$?}", v, w = w),
+        ".+w" => format!("{:+w$?}", v, w = w),
+        ".<w" => format!("{:<w$?}", v, w = w),
+        ".*^+#w" => format!("{:*^+#w$?}", v, w = w),
+        ".*>#w" => format!("{:*>#w$?}", v, w = w),
+        other => panic!("unknown debug spec {}", other),
+    }
+}
+
 fn perr(e: dashu_base::ParseError) -> String {
     format!("err {:?}", e)
 }
@@ -113,6 +131,46 @@ fn run(op: &str, a: &[&str]) -> String {
                 "na".to_string()
             };
             format!("ok {} {} {}", hexs(out.as_bytes()), hexs(reference.as_bytes()), prim)
+        }
+        // dbg <u|i> <spec> <width> <value>: the Debug text, and the primitive's `{:?}` where it is comparable
+        "dbg" => {
+            let (ty, spec, w) = (a[0], a[1], usz(a[2]));
+            let v = ibig(a[3]);
+            let mag = v.clone().into_parts().1;
+            let out = if ty == "u" { fmt_dbg(&mag, spec, w) } else { fmt_dbg(&v, spec, w) };
+            let prim = if spec != "." && spec != ".+" {
+                "na".to_string()
+            } else if ty == "u" {
+                match u128::try_from(&mag) { Ok(p) => hexs(fmt_dbg(&p, spec, w).as_bytes()), Err(_) => "na".to_string() }
+            } else {
+                match i128::try_from(&v) { Ok(p) => hexs(fmt_dbg(&p, spec, w).as_bytes()), Err(_) => "na".to_string() }
+            };
+            format!("ok {} {}", hexs(out.as_bytes()), prim)
+        }
+        // serde <u|i> <value>: human readable serialisation (serde_json) and the value read back from it
+        "serde" => {
+            let v = ibig(a[1]);
+            if a[0] == "u" {
+                let m = v.into_parts().1;
+                let js = serde_json::to_string(&m).expect("serialize");
+                let back: UBig = serde_json::from_str(&js).expect("deserialize");
+                format!("ok {} {}", hexs(js.as_bytes()), hu(&back))
+            } else {
+                let js = serde_json::to_string(&v).expect("serialize");
+                let back: IBig = serde_json::from_str(&js).expect("deserialize");
+                format!("ok {} {}", hexs(js.as_bytes()), hi(&back))
+            }
+        }
+        // deser <u|i> <text>: the text as a JSON string through the human readable deserialiser
+        "deser" => {
+            let bytes = unhex(a[1]);
+            let s = std::str::from_utf8(&bytes).expect("case text must be UTF-8");
+            let js = serde_json::to_string(s).expect("json string");
+            if a[0] == "u" {
+                match serde_json::from_str::<UBig>(&js) { Ok(v) => format!("ok {}", hu(&v)), Err(_) => "err serde".to_string() }
+            } else {
+                match serde_json::from_str::<IBig>(&js) { Ok(v) => format!("ok {}", hi(&v)), Err(_) => "err serde".to_string() }
+            }
         }
         // to_string (ToString goes through Display)
         "tostr" => {
